@@ -212,7 +212,17 @@ func init() {
 	}
 	intercepts["fmt.Errorf"] = func(ex *Exec, fr *Frame, a []Value, s ssa.Instruction) Value {
 		f, _ := a[0].(*Term).StrVal()
-		return ex.opaqueErr("fmt.Errorf:" + f)
+		e := ex.opaqueErr("fmt.Errorf:" + f)
+		// %w: the first error operand is wrapped (errors.Is / As / Unwrap see it)
+		if strings.Contains(f, "%w") && len(a) > 1 {
+			for _, x := range ex.anySlice(a[1]) {
+				if iv, ok := x.(*IfaceV); ok && iv.typ != nil && isErrorValue(iv) {
+					e.(*IfaceV).v.(*OpaqueV).aux = iv
+					break
+				}
+			}
+		}
+		return e
 	}
 	intercepts["fmt.Sprint"] = func(ex *Exec, fr *Frame, a []Value, s ssa.Instruction) Value {
 		var parts []*Term
@@ -247,6 +257,17 @@ func init() {
 		if !ok {
 			panic(ex.goPanic("errors.As: target must be a non-nil pointer"))
 		}
+		for k := 0; k < 4 && !types.Identical(pt.Elem(), err.typ); k++ {
+			o, isO := err.v.(*OpaqueV)
+			if !isO || o.aux == nil {
+				break
+			}
+			next, isI := o.aux.(*IfaceV)
+			if !isI || next.typ == nil {
+				break
+			}
+			err = next
+		}
 		if types.Identical(pt.Elem(), err.typ) {
 			ex.store(ex.ptr(tgt.v), err.v)
 			return ex.tt.Bool(true)
@@ -256,7 +277,21 @@ func init() {
 	intercepts["strconv.Itoa"] = func(ex *Exec, fr *Frame, a []Value, s ssa.Instruction) Value { return ex.fmtArg(a[0]) }
 	intercepts["strconv.FormatInt"] = func(ex *Exec, fr *Frame, a []Value, s ssa.Instruction) Value { return ex.fmtArg(a[0]) }
 	intercepts["errors.Is"] = func(ex *Exec, fr *Frame, a []Value, s ssa.Instruction) Value {
-		return ex.eqValues(a[0], a[1])
+		r := ex.eqValues(a[0], a[1])
+		cur := a[0]
+		for k := 0; k < 4; k++ {
+			iv, ok := cur.(*IfaceV)
+			if !ok || iv.typ == nil {
+				break
+			}
+			o, ok := iv.v.(*OpaqueV)
+			if !ok || o.aux == nil {
+				break
+			}
+			cur = o.aux
+			r = ex.tt.Or(r, ex.eqValues(cur, a[1]))
+		}
+		return r
 	}
 	intercepts["opaque:error.Error"] = func(ex *Exec, fr *Frame, a []Value, s ssa.Instruction) Value {
 		if m, ok := a[0].(*OpaqueV).data.(string); ok {
@@ -328,9 +363,24 @@ func init() {
 		ex.H.noteStub("strings.EqualFold (uninterpreted fold)")
 		return ex.tt.Eq(ex.tt.UF("fold", SString, x), ex.tt.UF("fold", SString, y))
 	}
+	// time.Now(): a reading of the server clock - a fresh instant not earlier than any earlier reading. The VALUE
+	// keeps that instant: reading it again (UnixMilli) later yields the same number, so a stale time.Time is stale.
 	intercepts["time.Now"] = func(ex *Exec, fr *Frame, a []Value, s ssa.Instruction) Value {
-		return &StructV{fs: []Value{ex.tt.BV(0, 64), ex.tt.BV(0, 64), &PtrV{}}}
+		ex.W.advanceTime(ex)
+		return &OpaqueV{kind: "time", data: ex.W.now}
 	}
+	// time.NewTimer: its channel never fires within the skeleton's step (like time.After); Stop/Reset report either outcome
+	intercepts["time.NewTimer"] = func(ex *Exec, fr *Frame, a []Value, s ssa.Instruction) Value {
+		ex.H.noteStub("time.NewTimer: the timer channel does not fire within one step of the kernel-loop skeleton; Stop/Reset return either value")
+		t := s.(ssa.Value).Type().(*types.Pointer).Elem()
+		p := ex.newStruct(t)
+		ex.fset(p, t, "C", &OpaqueV{kind: "chan-nil"})
+		return p
+	}
+	intercepts["(*time.Timer).Stop"] = func(ex *Exec, fr *Frame, a []Value, s ssa.Instruction) Value {
+		return ex.tt.Bool(ex.choose(2, nil, "timer-stop") == 1)
+	}
+	intercepts["(*time.Timer).Reset"] = intercepts["(*time.Timer).Stop"]
 	intercepts["(time.Duration).Milliseconds"] = func(ex *Exec, fr *Frame, a []Value, s ssa.Instruction) Value {
 		d := a[0].(*Term)
 		if ms, ok := ex.W.durMs[d.id]; ok {
@@ -349,6 +399,10 @@ func init() {
 	}
 	intercepts["math/rand.Intn"] = func(ex *Exec, fr *Frame, a []Value, s ssa.Instruction) Value {
 		n := a[0].(*Term)
+		// rand.Intn panics for n <= 0
+		if ex.branch(ex.tt.SLe(n, ex.tt.BV(0, 64)), "rand.Intn-nonpositive") {
+			panic(ex.goPanic("invalid argument to Intn"))
+		}
 		if nv, ok := n.BVVal(); ok && nv > 0 && nv <= 8 {
 			// small concrete range: every value is explored
 			return ex.tt.BV(uint64(ex.choose(int(nv), nil, "rand.Intn")), 64)
@@ -1470,4 +1524,13 @@ func init() {
 	}
 	intercepts["sort.SliceStable"] = srt
 	intercepts["sort.Slice"] = srt
+}
+
+var errorIfaceT = types.Universe.Lookup("error").Type().Underlying().(*types.Interface)
+
+func isErrorValue(iv *IfaceV) bool {
+	if o, ok := iv.v.(*OpaqueV); ok && o.kind == "error" {
+		return true
+	}
+	return types.Implements(iv.typ, errorIfaceT)
 }
